@@ -146,6 +146,23 @@ def encode_call(sig, specs, msg):
     return sel + head + tails, patches
 
 
+def rel_expr(case):
+    """the assertion's relation as an EVM word (1/0) over the two word operands"""
+    op, typ, _ = parse(case["sig"])
+    a = case["specs"][0][1]
+    b = case["specs"][1][1] if len(case["specs"]) > 1 else None
+    if op == "True":
+        return ["op1", "ISZERO", ["op1", "ISZERO", a]]
+    if op == "False":
+        return ["op1", "ISZERO", a]
+    if op == "Eq":
+        return ["op2", "EQ", a, b]
+    if op == "NotEq":
+        return ["op1", "ISZERO", ["op2", "EQ", a, b]]
+    lt, gt = ("SLT", "SGT") if typ == "int256" else ("LT", "GT")
+    return {"Lt": ["op2", lt, a, b], "Gt": ["op2", gt, a, b], "Le": ["op1", "ISZERO", ["op2", gt, a, b]], "Ge": ["op1", "ISZERO", ["op2", lt, a, b]]}[op]
+
+
 def build_world(case):
     sig = case["sig"]
     data, patches = encode_call(sig, case["specs"], case.get("msg"))
@@ -153,6 +170,12 @@ def build_world(case):
     leaf = [["memw", CD, data.hex()]]
     for off, e in patches:
         leaf.append(["mstore", CD + off, e])
+    if case.get("guard"):
+        # on one side of a fork the relation is assumed first; the very same assertion then follows on
+        # both sides (what is learnt about the assertion on one side must not be used on the other)
+        ga = selector("assume(bool)").to_bytes(4, "big")
+        leaf = [["if", ["op2", "AND", ["cd", gen.NW - 1], ["c", 1]],
+                 [["memw", 0x700, ga.hex()], ["mstore", 0x704, rel_expr(case)], ["xcall", HEVM, 0x700, 36, 0, 0]], []]] + leaf
     leaf.append(["xcall", HEVM, CD, len(data), 0, 0])
     leaf += [["sstore", ["c", 9], ["c", 1]], ["mstore", 0, ["c", 0x77]], ["return", 0, 32]]
     depth = case.get("depth", 1)
@@ -202,6 +225,7 @@ def run_case(case, acc=None):
         vals = [spec_value(s, words) for s in case["specs"]]
         holds = relation(op, typ, *vals) if op != "assume" else (vals[0] != 0)
         both.add(holds)
+        assumed_away = bool(case.get("guard")) and (words[gen.NW - 1] & 1) == 1 and not holds
         failing, passing, stuck = 0, 0, 0
         for ex in exs:
             ok, _ = diff.path_covers(ex, diff.mk_env(world, inp))
@@ -221,6 +245,10 @@ def run_case(case, acc=None):
             if not holds and (passing or failing):
                 fails.append((["assume", "admits-excluded"], f"c == 0 but a path admits words={words[:2]}"))
         else:
+            if assumed_away:
+                if passing or failing:
+                    fails.append((["guarded", "admits-assumed-away"] + tag, f"{sig}: the relation was assumed on this side and is false for {vals}, but a path admits the input"))
+                continue
             if holds and failing:
                 fails.append((["fails-when-true"] + tag, f"{sig}: relation holds for {vals} but a FailCheatcode path admits it"))
             if not holds and not failing and not stuck:
@@ -280,6 +308,10 @@ def case_st(sig):
         specs = st.builds(mka, st.integers(0, 3), st.integers(0, 3), st.booleans(), st.integers(0, 3), st.one_of(st.just(["cd", 1]), st.integers(0, 5).map(lambda v: ["c", v])))
     else:
         specs = st.builds(lambda a, b: [["w", a], ["w", b]], wexpr(0), wexpr(1))
+        if op in ("Lt", "Gt", "Le", "Ge"):
+            # both operands concrete, at the sign / wrap-around boundaries
+            edge = st.sampled_from([1 << 255, (1 << 255) - 1, (1 << 255) + 1, 0, 1, M256, M256 - 1])
+            specs = st.one_of(specs, specs, st.builds(lambda a, b: [["w", ["c", a]], ["w", ["c", b]]], edge, edge))
 
     def vals_st():
         # boundary pairs around the relation: (x, x), (x, x+1), (x, x-1), sign boundaries
@@ -294,7 +326,10 @@ def case_st(sig):
             pair = pair.map(lambda p: [p[0] & ((1 << 160) - 1), p[1] & ((1 << 160) - 1)])
         return st.lists(st.builds(lambda p, r: p + r, pair, st.lists(x, min_size=gen.NW - 2, max_size=gen.NW - 2)), min_size=10, max_size=10)
 
-    return st.builds(lambda sp, m, vals, seed, depth: {"sig": sig, "specs": sp, "msg": m, "vals": vals, "seed": seed, "depth": depth}, specs, msg, vals_st(), st.integers(0, 1 << 20), st.integers(1, 3))
+    word_ops = not is_arr and base not in DYN_T
+    guard = st.sampled_from([False, False, True]) if word_ops else st.just(False)
+    return st.builds(lambda sp, m, vals, seed, depth, g: {"sig": sig, "specs": sp, "msg": m, "vals": vals, "seed": seed, "depth": depth, "guard": g and depth == 1},
+                     specs, msg, vals_st(), st.integers(0, 1 << 20), st.integers(1, 3), guard)
 
 
 def check_table(acc: Acc):
